@@ -1669,6 +1669,15 @@ func sweepRule(w *World, r *Report, rule string) {
 			continue
 		}
 		ev := errValues(fn, siteValue(xfer))
+		// a sweeping helper that logs the bank's error and answers with a bool (`if !k.sweep(...) { return nil }`): the
+		// truth value that stands for "the transfer succeeded"
+		xv := siteValue(xfer)
+		boolSweep, okMeans := false, false
+		if xv != nil && strings.HasSuffix(typeString(xv.Type()), "bool") {
+			if v, isDecided := w.boolErrPolarity(xfer); isDecided {
+				boolSweep, okMeans = true, v
+			}
+		}
 		sent := coinsArg(xfer)
 		dependsOnSent := func(o *Origin) bool {
 			if c, ok := sent.(*ssa.Call); ok && o.Calls[c] {
@@ -1678,12 +1687,18 @@ func sweepRule(w *World, r *Report, rule string) {
 		}
 		for _, failed := range []bool{true, false} {
 			failed := failed
-			live := ReachUnder(fn, OrderEval(func(v ssa.Value) string {
+			errEval := OrderEval(func(v ssa.Value) string {
 				if ev[v] {
 					return "err"
 				}
 				return ""
-			}, func(a, b string) (int, bool) { return 0, false }, func(t string) (bool, bool) { return !failed, t == "err" }))
+			}, func(a, b string) (int, bool) { return 0, false }, func(t string) (bool, bool) { return !failed, t == "err" })
+			live := ReachUnder(fn, func(base ssa.Value) (bool, bool) {
+				if boolSweep && base == xv {
+					return okMeans != failed, true
+				}
+				return errEval(base)
+			})
 			lt := w.Tracer()
 			lt.Live, lt.LiveFn = live, fn
 			nret, ok := 0, true
@@ -1730,9 +1745,25 @@ func sweepRule(w *World, r *Report, rule string) {
 				}
 			}
 		}
-		for _, c := range xfer.Callees {
-			for _, ms := range cg.targetsBelow(c, func(x *Site) bool { return cg.Atom(x) == BankMove }, map[*ssa.Function]bool{}) {
-				_ = ms
+		if !toMain && xfer.Static != nil && !xfer.Invoke && w.isProdFunc(xfer.Static) {
+			// the destination named inside a sweeping helper of the module (one level)
+			for _, s2 := range cg.Sites[xfer.Static] {
+				moves := cg.Atom(s2) == BankMove
+				for _, c := range s2.Callees {
+					if len(cg.targetsBelow(c, func(x *Site) bool { return cg.Atom(x) == BankMove }, map[*ssa.Function]bool{})) > 0 {
+						moves = true
+					}
+				}
+				if !moves {
+					continue
+				}
+				for _, ns := range w.bankStringArgs(s2) {
+					for _, n := range ns {
+						if n == "distributor_main_account" {
+							toMain = true
+						}
+					}
+				}
 			}
 		}
 		r.Check(toMain, rule, funcName(fn)+": swept into the distributor main account", w.Pos(xfer.Instr.Pos()), "destination constant", fmt.Sprintf("sweep destination %v", names))
@@ -2218,4 +2249,88 @@ func keyPurityRule(w *World, r *Report, rule string) {
 		}
 	}
 	r.Check(pure, rule, "the persistence key is built from the account's fields as spelled", w.Pos(keyFn.Pos()), "no parsing or normalising call on the key's backward slice", "the store key of a state is computed from a parsed / normalised rendering ("+bad+") while the in-memory lookup compares the fields as spelled: two accounts that validation and the block routine keep apart share one store entry, and one state's leftovers overwrite the other's")
+}
+
+// boolErrPolarity: the site calls a module helper with a single bool result that contains exactly one call below which
+// the bank moves coins; the helper answers one constant on every path on which that call failed and the other constant
+// on every path on which it succeeded. Returns the constant that stands for success.
+func (w *World) boolErrPolarity(site *Site) (okMeans bool, decided bool) {
+	cg := w.CG()
+	h := site.Static
+	if h == nil || site.Invoke || h.Blocks == nil || !w.isProdFunc(h) {
+		return false, false
+	}
+	var inner *ssa.Call
+	for _, s := range cg.Sites[h] {
+		moves := cg.Atom(s) == BankMove
+		for _, c := range s.Callees {
+			if len(cg.targetsBelow(c, func(x *Site) bool { return cg.Atom(x) == BankMove }, map[*ssa.Function]bool{})) > 0 {
+				moves = true
+			}
+		}
+		if !moves {
+			continue
+		}
+		c, isC := s.Instr.(*ssa.Call)
+		if !isC || inner != nil {
+			return false, false
+		}
+		inner = c
+	}
+	if inner == nil {
+		return false, false
+	}
+	ev := errValues(h, inner)
+	if len(ev) == 0 {
+		return false, false
+	}
+	answer := func(failed bool) (bool, bool) {
+		live := ReachUnder(h, OrderEval(func(v ssa.Value) string {
+			if ev[v] {
+				return "err"
+			}
+			return ""
+		}, func(a, b string) (int, bool) { return 0, false }, func(t string) (bool, bool) { return !failed, t == "err" }))
+		after := map[*ssa.BasicBlock]bool{}
+		var fwd func(b *ssa.BasicBlock)
+		fwd = func(b *ssa.BasicBlock) {
+			if after[b] {
+				return
+			}
+			after[b] = true
+			for i, sc := range b.Succs {
+				if live.Edges[Edge{b, i}] {
+					fwd(sc)
+				}
+			}
+		}
+		if !live.Blocks[inner.Block()] {
+			return false, false
+		}
+		fwd(inner.Block())
+		first, have := false, false
+		for _, ret := range Returns(h) {
+			if !after[ret.Block()] {
+				continue
+			}
+			rv := retVals(ret)
+			if len(rv) != 1 {
+				return false, false
+			}
+			for _, a := range live.LiveValues(rv[0]) {
+				c, isC := constBool(a)
+				if !isC || (have && c != first) {
+					return false, false
+				}
+				first, have = c, true
+			}
+		}
+		return first, have
+	}
+	onFail, ok1 := answer(true)
+	onOK, ok2 := answer(false)
+	if !ok1 || !ok2 || onFail == onOK {
+		return false, false
+	}
+	return onOK, true
 }
